@@ -1682,3 +1682,64 @@ func loopIterationPaths(header, entry *ssa.BasicBlock, body, stop map[*ssa.Basic
 	walk(entry, header, nil)
 	return paths, ok
 }
+
+// funcPath is one acyclic way through a function, from the entry to a block that ends it.
+type funcPath struct {
+	blocks []*ssa.BasicBlock
+	facts  []fact
+	env    map[*ssa.Phi]ssa.Value
+}
+
+func (p funcPath) value(v ssa.Value) ssa.Value { return nearPath{res: p.env}.value(v) }
+
+// funcPaths enumerates the feasible acyclic paths from the entry of fn to its returning blocks (phis resolved,
+// constant conditions decided). ok=false if fn has a cycle on the way or more than max paths.
+func funcPaths(fn *ssa.Function, max int) (paths []funcPath, ok bool) {
+	ok = true
+	if len(fn.Blocks) == 0 {
+		return nil, false
+	}
+	env := newPathEnv()
+	onPath := map[*ssa.BasicBlock]bool{}
+	var blocks []*ssa.BasicBlock
+	var walk func(b, prev *ssa.BasicBlock, cur []fact)
+	walk = func(b, prev *ssa.BasicBlock, cur []fact) {
+		if !ok {
+			return
+		}
+		if onPath[b] {
+			ok = false
+			return
+		}
+		onPath[b] = true
+		blocks = append(blocks, b)
+		undo := env.enter(b, prev)
+		defer func() { undo(); onPath[b] = false; blocks = blocks[:len(blocks)-1] }()
+		if len(b.Succs) == 0 {
+			if len(paths) >= max {
+				ok = false
+				return
+			}
+			snap := map[*ssa.Phi]ssa.Value{}
+			for k, v := range env.res {
+				snap[k] = v
+			}
+			paths = append(paths, funcPath{append([]*ssa.BasicBlock{}, blocks...), append([]fact{}, cur...), snap})
+			return
+		}
+		iff, isIf := b.Instrs[len(b.Instrs)-1].(*ssa.If)
+		for i, s := range b.Succs {
+			n := len(cur)
+			feasible := true
+			if isIf && len(b.Succs) == 2 && b.Succs[0] != b.Succs[1] {
+				feasible = env.take(iff.Cond, i == 0, &cur)
+			}
+			if feasible {
+				walk(s, b, cur)
+			}
+			cur = cur[:n]
+		}
+	}
+	walk(fn.Blocks[0], nil, nil)
+	return paths, ok
+}
